@@ -73,7 +73,12 @@ func (comp DefaultCompiler) Compile(stmts []*gripql.GraphStatement, opts *gdbi.C
 	ps := pipeline.NewPipelineState(stmts)
 	if opts != nil {
 		ps.LastType = opts.PipelineExtension
-		ps.MarkTypes = opts.ExtensionMarkTypes
+		// copy the mark types: the caller's map describes the stream being
+		// extended (a stored job) and must not pick up, or have replaced, the
+		// marks that the extension sets
+		for k, v := range opts.ExtensionMarkTypes {
+			ps.MarkTypes[k] = v
+		}
 	}
 
 	procs := make([]gdbi.Processor, 0, len(stmts)+1)
